@@ -31,6 +31,16 @@ CHECKS = {
          "Random plaintexts and settings (both ciphers, memory and disk base, empty and random secret/salt, host binding, WriteFile and chunked Writer) are written and read back by a second instance through ReadFile and Reader with several buffer sizes; stored bytes are searched for plaintext windows, nonces must be unique run-wide, another secret or salt must give an error and zero bytes. For stored files up to 256 bytes every truncation and every single-byte corruption (3 masks), sampled for larger files, is read through both paths: error, zero bytes delivered, no panic, filespace still usable afterwards (a leaked lock deadlocks the child). Name-space histories run against the tree model. Held on the explored cases.",
          "secrecy = absence of 16-byte plaintext windows (not a cryptographic claim); AES-GCM forgery probability ignored",
          "DESIGN.md §5 C05"),
+ "C06": ("fault_enumeration",
+         "lock-step reference-model monitor with remote-isolation fingerprinting after every operation, commit-equality oracle, enumeration of every remote fault position during Commit; two strata (clean / trigger) with known-finding class predicates and verbatim witness replay",
+         "Generated cache histories over memory and disk remotes run against a tree model: the whole remote tree is compared with its last committed state after every cache operation, and after every successful Commit it must equal the model (successful operations applied directly); for clean-stratum histories a dry run counts the remote calls of the final Commit and every position is failed once: Commit must report it and a later Commit must succeed and converge. In the clean stratum (generator avoids the triggers of the listed findings by construction) any divergence is a violation; in the unrestricted trigger stratum a divergence must satisfy a listed finding's predicate; the findings' witness histories are replayed verbatim. Held on the histories executed, with the listed open findings.",
+         "expected tree defined through operations the cache reported successful; ambiguous histories (cache accepts what the model rejects) excluded; remove-related and directory-copy divergences in the trigger stratum are attributed to the open findings by class predicate",
+         "DESIGN.md §5 C06"),
+ "C07": ("exploration",
+         "lock-step reference-model monitor comparing every read-type result and the whole tree observable through the cache with the model after every operation; two strata with known-finding class predicates and verbatim witness replay",
+         "The same generated histories (also through child views of the cache, over memory and disk remotes) are checked for read-your-writes: each read-type call's result and, after every operation, the complete tree observable through the cache (ReadDir, Lstat, IsExist/IsFile/IsDir, ReadFile on every node, with listing/stat consistency) must equal the model of 'pending operations applied on top of the remote'. Clean stratum: any divergence is a violation; trigger stratum: must satisfy a listed finding's predicate; witnesses replayed verbatim. Held on the histories executed, with the listed open findings.",
+         "an operation the cache reports as failed must have no visible effect; remove-related and directory-copy divergences in the trigger stratum are attributed to the open findings by class predicate",
+         "DESIGN.md §5 C07"),
  "C08": ("exploration",
          "event-log monitor (exactly-once / bounded in-flight / nothing after Wait) over stress runs with injected scheduling noise and faults, a scripted schedule through verif yield hooks for the consumer-exit window, Go race detector",
          "The real fsloop.Loop runs over generated trees (empty, deep, wider than the channel capacity, random), hash-keyed filters, producer/consumer limits 0..16 and GOMAXPROCS 1/2/4/16, with noise injected from the hook points and the source's ReadDir and one injected callback or listing fault in part of the runs; callbacks log enter/exit events and an offline checker decides exactly-once, no unexpected node, in-flight bound, nothing after Wait, error present iff injected. A controller parks every consumer at the hook between its two exit tests while a gated source lets the last directory be listed and the close be announced (also through fshelper.Copy). Race reports in fsloop/jobsync decide. Held on the schedules produced, counted by hook-order signature.",
